@@ -198,8 +198,15 @@ RestViol(ev) ==
           \/ (~HasTimer /\ nb > 0),
      V("C09", "NotFlushedAtSize", ev))
 
+\* "if the caller's context ends first the call returns promptly with the context error": at a quiescent point (every
+\* gate open, every goroutine blocked for good unless time passes or something new arrives) a call whose context has
+\* ended is no longer inside Consume
+NotPrompt(ev) ==
+  If(\E c \in DOMAIN calls : calls[c].ret = "none" /\ calls[c].x \in cancelled,
+     V("C06", "NotPromptAfterContextEnded", ev))
+
 OnQuiet(ev) ==
-  /\ viol' = viol \cup RestViol(ev)
+  /\ viol' = viol \cup RestViol(ev) \cup NotPrompt(ev)
   /\ UNCHANGED <<cfg, calls, exps, cancelled, admitted, shutCalled, shutReturned>>
 
 \* virtual time moves from ev.a to ev.b: no buffered item may be older than T
